@@ -19,6 +19,7 @@ import (
 	"net/http/httptest"
 	"os"
 	"strings"
+	"sync"
 
 	"golang.org/x/mod/semver"
 	"golang.org/x/telemetry/godev/internal/storage"
@@ -37,13 +38,18 @@ func init() {
 type verifApprovalReq struct {
 	Cfg    telemetry.UploadConfig
 	Report string
+	// Burst > 0: ONE configuration object and ONE handler are created (as the
+	// server does when it starts) and Burst goroutines POST Report at the
+	// same moment; the answer carries every status
+	Burst int
 }
 
 type verifApprovalRes struct {
-	Verdict string
-	Status  int
-	Semver  bool
-	Stored  bool
+	Verdict  string
+	Status   int
+	Semver   bool
+	Stored   bool
+	Statuses []int
 }
 
 func verifClassify(err error) string {
@@ -80,6 +86,36 @@ func verifApprovalServe() {
 		ucfg := req.Cfg
 		cfg := tconfig.NewConfig(&ucfg)
 		var res verifApprovalRes
+		if req.Burst > 0 {
+			bucket, err := storage.NewFSBucket(ctx, dir, fmt.Sprintf("b%d", n))
+			if err != nil {
+				fmt.Fprintln(os.Stderr, err)
+				os.Exit(2)
+			}
+			h := handleUpload(cfg, bucket)
+			res.Statuses = make([]int, req.Burst)
+			start := make(chan struct{})
+			var wg sync.WaitGroup
+			for i := 0; i < req.Burst; i++ {
+				wg.Add(1)
+				go func(i int) {
+					defer wg.Done()
+					rec := httptest.NewRecorder()
+					r := httptest.NewRequest("POST", "/upload/week", bytes.NewReader([]byte(req.Report)))
+					<-start
+					h.ServeHTTP(rec, r)
+					res.Statuses[i] = rec.Code
+				}(i)
+			}
+			close(start)
+			wg.Wait()
+			os.RemoveAll(dir + fmt.Sprintf("/b%d", n))
+			b, _ := json.Marshal(res)
+			out.Write(b)
+			out.WriteByte('\n')
+			out.Flush()
+			continue
+		}
 		var rep telemetry.Report
 		if err := json.Unmarshal([]byte(req.Report), &rep); err != nil {
 			res.Verdict = "undecodable"
